@@ -935,7 +935,8 @@ func c10Matcher(c *Ctx, a *clientAnchors) {
 		pairPhi = nil
 	}
 	if pairPhi == nil {
-		r.Check(st.Val == ssa.Value(pkt), "C10-K4", key("response is the packet received from the transaction channel"), c.P.ipos(st), "value identity", "the stored response is "+sx.Of(st.Val).String()+", not the packet received in this select")
+		// (a φ of a join whose tested error decides the way to the store is the value of the edges that can reach it)
+		r.Check(st.Val == ssa.Value(pkt) || feasibleAt(st.Val, st.Block()) == ssa.Value(pkt), "C10-K4", key("response is the packet received from the transaction channel"), c.P.ipos(st), "value identity", "the stored response is "+sx.Of(st.Val).String()+", not the packet received in this select")
 	}
 	// match condition
 	var nilT, callT Edge
